@@ -208,10 +208,10 @@ class Ctx:
             raise Incomplete(f'anchor function {qual} ({file or "any file"}) expected once, found {len(c)}')
         return c[0]
 
-    def fnx(self, qual, file=None, trait=None, stop=(), depth=3):
+    def fnx(self, qual, file=None, trait=None, stop=(), depth=3, force=()):
         """Like fn(), but with calls to local helpers no rule knows by name expanded (vlib/inline.py)."""
         from . import inline
-        return inline.view(self, self.fn(qual, file=file, trait=trait), depth=depth, stop=tuple(stop))
+        return inline.view(self, self.fn(qual, file=file, trait=trait), depth=depth, stop=tuple(stop), force=tuple(force))
 
     def x(self, f, stop=(), depth=3):
         from . import inline
